@@ -145,7 +145,9 @@ AllOps == RegOps \cup QIntOps \cup EqOps \cup QRatOps \cup VarOps \cup NormHalfO
 RejName(op) == "reject_" \o op
 HitNames == AllOps \cup { RejName(op) : op \in RejectOps }
             \cup {"eq_false_on_shape_mismatch", "eq_false_same_size_other_shape", "approx_false_same_size_other_shape",
-                  "eq_true", "eq_false_same_shape", "binary_mixed_layout", "norm_sign_independent", "unconstrained_div0", "unconstrained_softmax_matrix",
+                  "eq_true", "eq_false_same_shape", "binary_mixed_layout", "norm_sign_independent", "unconstrained_div0",
+                  "reject_ab_00", "reject_ab_01", "reject_ab_10", "reject_ab_11", "reject_vector_shaped_operand",
+                  "op_on_native_operand", "unconstrained_softmax_matrix",
                   "unique_sorted", "argmax_tie", "inplace_equals_copy"}
 
 HitSet(e, A, B, cl) ==
@@ -161,6 +163,13 @@ HitSet(e, A, B, cl) ==
          \* a binary call one of whose operands (only) descends from a transpose / column-major constructor
          \cup (IF e.ev = "Op" /\ e.b # 0 /\ IsM(A) /\ IsM(B) /\ e.atr # e.btr THEN {"binary_mixed_layout"} ELSE {})
          \cup (IF e.op \in NormHalfOps /\ nh.p = e.ia[1] /\ nh.d = MapSeq(A.d, Abs) /\ nh.s # A.d THEN {"norm_sign_independent"} ELSE {})
+         \* rejected incompatible calls: the four flag combinations of ab, and calls whose second operand is
+         \* vector shaped (1xq / qx1, over- or under-sized)
+         \cup (IF e.op = "ab" /\ e.status = "panic"
+               THEN {IF e.ia[1] = 0 THEN (IF e.ia[2] = 0 THEN "reject_ab_00" ELSE "reject_ab_01")
+                                    ELSE (IF e.ia[2] = 0 THEN "reject_ab_10" ELSE "reject_ab_11")} ELSE {})
+         \cup (IF e.status = "panic" /\ e.b # 0 /\ IsM(B) /\ IsVecShaped(B) THEN {"reject_vector_shaped_operand"} ELSE {})
+         \cup (IF e.ev = "Op" /\ e.a # 0 /\ e.anat THEN {"op_on_native_operand"} ELSE {})
          \cup (IF e.op = "eq" /\ e.status = "ok" /\ e.bool THEN {"eq_true"} ELSE {})
          \cup (IF e.op = "eq" /\ e.status = "ok" /\ ~e.bool /\ A.k # "e" /\ B.k # "e" /\ SameShape(A, B) THEN {"eq_false_same_shape"} ELSE {})
          \cup (IF e.op \in {"div", "div_mut", "v_div", "v_div_mut"} /\ e.status = "ok" /\ \E x \in 1..Len(B.d) : B.d[x] = 0
